@@ -21,6 +21,7 @@ import (
 	"github.com/form3tech-oss/f1/v2/internal/trigger/staged"
 	"github.com/form3tech-oss/f1/v2/internal/trigger/users"
 	"github.com/form3tech-oss/f1/v2/internal/ui"
+	"github.com/form3tech-oss/f1/v2/internal/verifshim/vctx"
 	"github.com/form3tech-oss/f1/v2/internal/verifshim/vrt"
 	"github.com/form3tech-oss/f1/v2/internal/verifshim/vtime"
 	"github.com/form3tech-oss/f1/v2/pkg/f1/scenarios"
@@ -60,6 +61,7 @@ type RunSpec struct {
 	Metrics           *metrics.Metrics // optional: reuse an instance across runs
 	Labels            map[string]string
 	Quiet             bool // discard output instead of capturing it
+	Scenario          string // scenario name (default "s")
 }
 
 // Built is a constructed run plus what the oracles need.
@@ -134,6 +136,9 @@ func (rs *RunSpec) Build() (*Built, error) {
 		return nil, err
 	}
 	if opts.Scenario == "" {
+		opts.Scenario = rs.Scenario
+	}
+	if opts.Scenario == "" {
 		opts.Scenario = "s"
 	}
 	opts.Verbose = true // log to the output, never to a file
@@ -194,4 +199,57 @@ func IterationCounts(reg prometheus.Gatherer) (success, fail, dropped uint64) {
 		}
 	}
 	return
+}
+
+// RunResult is what one whole run did on the default schedule.
+type RunResult struct {
+	Out        *vrt.Outcome
+	Success    uint64
+	Fail       uint64
+	Dropped    uint64
+	Failed     bool
+	Err        error
+	DoErr      error
+	BuildErr   error
+	Reg        *prometheus.Registry
+	ReturnedAt time.Duration
+}
+
+// RunOnce builds the run described by rs and executes Do once on the default
+// schedule in virtual time. cancelAt >= 0: the caller cancels then. After Do
+// returns the clock runs on for observe.
+func RunOnce(rs *RunSpec, cancelAt, observe time.Duration, horizon time.Duration) *RunResult {
+	res := &RunResult{}
+	res.Out = vrt.RunDefault(func() {
+		b, err := rs.Build()
+		if err != nil {
+			res.BuildErr = err
+			return
+		}
+		res.Reg = b.Reg
+		ctx, cancel := vctx.WithCancel(vctx.Background())
+		defer cancel()
+		if cancelAt >= 0 {
+			vrt.GoNamed("caller-cancel", func() {
+				if cancelAt > 0 {
+					vtime.Sleep(cancelAt)
+				}
+				cancel()
+			})
+		}
+		r, err := b.Run.Do(ctx)
+		res.ReturnedAt = time.Duration(vrt.Clock())
+		vrt.LogQuiet("do-returned")
+		res.DoErr = err
+		if r != nil {
+			snap := r.Snapshot()
+			res.Success, res.Fail, res.Dropped = snap.SuccessfulIterationDurations.Count, snap.FailedIterationDurations.Count, snap.DroppedIterationCount
+			res.Failed = r.Failed()
+			res.Err = r.Error()
+		}
+		if observe > 0 {
+			vtime.Sleep(observe)
+		}
+	}, horizon, 0)
+	return res
 }
